@@ -274,7 +274,7 @@ int xp_choose(int nalts, const int *costs)
 void xp_run_jobs(int njobs, void (*fn)(int job), int nworkers)
 {
 	int running = 0, next = 0;
-	XS->jobs_total = njobs;
+	__atomic_fetch_add(&XS->jobs_total, njobs, __ATOMIC_RELAXED);
 	while (next < njobs || running > 0) {
 		while (next < njobs && running < nworkers) {
 			if (xp_expired()) { ADD(incomplete, njobs - next); next = njobs; break; }
